@@ -164,6 +164,7 @@ func (s *Set) Check(op string, params Parameters) error {
 		if d == nil {
 			return nil
 		}
+		verifYield("matched", op, params)
 
 		remaining := atomic.AddInt64(&d.Count, -1)
 		if remaining <= 0 {
